@@ -115,6 +115,7 @@ def handle : List String → Option String
   | ["c16report"] => some (Spec.showProblems (Spec.reportProblems Spec.freshReport))
   | ["c16drift"] => some (Spec.showDrift (Spec.reportDrift Spec.committedReport Spec.freshReport))
   | ["c16knowndrift"] => some (Spec.showDrift Spec.knownDrift)
+  | ["c16same", a, b] => some (boolStr (Spec.unchangedOnCpu (a.splitOn "|") (b.splitOn "|")))
   | "c16judge" :: pred :: obs :: _ => some (boolStr (Spec.placementOk pred obs))
   | _ => none
 
